@@ -1,9 +1,15 @@
 package main
 
 import (
+	"bufio"
+	"encoding/base64"
+	"encoding/binary"
 	"fmt"
 	"math"
+	"os"
+	"path/filepath"
 	"strings"
+	"time"
 )
 
 func init() { register("C16", runC16) }
@@ -220,6 +226,7 @@ func runC16(r *Run) {
 			}
 		}
 	}
+	c16Binary(r)
 	r.extra["responses_decoded"] = len(refs) - len(cases)
 	r.extra["model_disagreements"] = drift
 	if drift > 0 && !r.HasViolation() {
@@ -236,4 +243,111 @@ func parseSome(a, key string) uint64 {
 	var v uint64
 	fmt.Sscanf(a[i+len(key)+7:], "%d", &v)
 	return v
+}
+
+// c16Binary: the policy as configured, through config.Load and main()'s wiring: the real binary is
+// started with redirect switches and an idle timeout in its configuration file, a tunnel is taken to
+// the authorization step, and the response's redirect flags and idle timeout are compared with
+// Resp.makeRedirectFlags / idleField for that configuration (disable-all taking precedence).
+func c16Binary(r *Run) {
+	if _, err := os.Stat(gwBinaryPath()); err != nil {
+		r.Note("gateway binary unavailable: binary tier skipped")
+		return
+	}
+	r.TierRan("binary")
+	dir := filepath.Join(verifRoot, "work", fmt.Sprintf("c16-%d", os.Getpid()))
+	os.MkdirAll(dir, 0o755)
+	defer os.RemoveAll(dir)
+	sock := filepath.Join(dir, "auth.sock")
+	fa := startFakeAuth(sock, map[string]string{"alice": "wonderland"})
+	defer fa.stop()
+	cert, key := selfSignedCert(dir)
+	basic := "Basic " + base64.StdEncoding.EncodeToString([]byte("alice:wonderland"))
+	type capsCase struct {
+		redir [7]bool // clipboard port drive printer pnp disableAll enableAll
+		idle  int
+	}
+	cs := []capsCase{
+		{[7]bool{false, false, false, false, false, true, true}, 7},
+		{[7]bool{true, false, true, false, false, true, false}, 0},
+		{[7]bool{false, false, false, false, false, false, true}, 30},
+		{[7]bool{true, true, false, false, true, false, false}, -1},
+		{[7]bool{false, false, false, true, false, false, false}, 65535},
+		{[7]bool{true, true, true, true, true, true, true}, 1},
+	}
+	if r.Thorough() {
+		for i := 0; i < 40; i++ {
+			var c capsCase
+			for b := range c.redir {
+				c.redir[b] = r.Rng.Intn(2) == 0
+			}
+			c.idle = []int{0, 1, 30, -5, 1 << 20}[r.Rng.Intn(5)]
+			cs = append(cs, c)
+		}
+	}
+	var lines []string
+	var got []string
+	var reps []string
+	for _, c := range cs {
+		port := freePort()
+		ta := false
+		names := []string{"enableclipboard", "enableport", "enabledrive", "enableprinter", "enablepnp", "disableredirect", "redirectall"}
+		var extra []string
+		var rb strings.Builder
+		for i, n := range names {
+			extra = append(extra, fmt.Sprintf("%s: %v", n, c.redir[i]))
+			rb.WriteString(b01(c.redir[i]))
+		}
+		extra = append(extra, fmt.Sprintf("idletimeout: %d", c.idle))
+		y := &gwYaml{port: port, tlsOn: true, auth: []string{"local"}, hosts: []string{"10.0.0.1:3389"}, hostSelection: "any", sock: sock, tokenAuth: &ta, certFile: cert, keyFile: key, extraCaps: extra}
+		p := startBinary(dir, y.render(), nil, port, true)
+		if !p.running() {
+			r.Note("binary did not start for a redirect configuration: " + tail(p.stderr.String(), 300))
+			p.stop()
+			continue
+		}
+		conn, err := p.dial()
+		if err != nil {
+			p.stop()
+			r.Inconclusive()
+			continue
+		}
+		br := bufio.NewReader(conn)
+		resp := rawRequest(conn, br, "RDG_OUT_DATA", fmt.Sprintf("localhost:%d", port), []string{basic}, true)
+		flags, idle := "none", "none"
+		if resp.upgraded {
+			w := &wsClient{c: conn, br: br}
+			for _, pk := range [][]byte{mkPacket(tHandshake, bodyHandshake(1, 0, 0, 0)), mkPacket(tTunnel, bodyTunnelCreate(0, 0, nil)), mkPacket(tAuth, bodyTunnelAuth(append(utf16le("PC"), 0, 0)))} {
+				w.send(pk)
+			}
+			for k := 0; k < 3; k++ {
+				m, err := w.recv(3 * time.Second)
+				if err != nil {
+					break
+				}
+				if len(m) >= 24 && m[0] == 7 {
+					flags = fmt.Sprint(binary.LittleEndian.Uint32(m[16:20]))
+					idle = fmt.Sprint(binary.LittleEndian.Uint32(m[20:24]))
+				}
+			}
+		}
+		conn.Close()
+		p.stop()
+		lines = append(lines, fmt.Sprintf("redir redir=%s idle=%d", rb.String(), c.idle))
+		got = append(got, flags+" "+idle)
+		reps = append(reps, fmt.Sprintf("real binary, Caps: %s\ntunnel-authorization response: redirect flags %s, idle timeout %s\n", strings.Join(extra, ", "), flags, idle))
+		r.Count("binary:" + rb.String() + fmt.Sprint(c.idle))
+		r.Dist("binary:caps")
+	}
+	ans := r.Oracle(lines)
+	for i := range lines {
+		m := kv(ans[i])
+		if got[i] == "none none" {
+			r.Inconclusive()
+			continue
+		}
+		if got[i] != m["flags"]+" "+m["idle"] {
+			r.Violation("c16-redirect", "tunnel-authorization response misreports the redirection policy", reps[i]+"model for this configuration: "+ans[i]+"\n")
+		}
+	}
 }
